@@ -227,7 +227,7 @@ def check(case):
                 classes.append("exit-flip")
 
     dfs = [abs(j[i] / perms[i]) for i in (0, 1)]
-    nontrivial = (mode == "temperature" or (mode == "pressure" and case["perm"]["p"] > 0)) and traced \
+    nontrivial = (mode == "temperature" or (mode == "pressure" and case["perm"]["p"] > 0)) and (traced or not tr.hooked) \
         and all(dfs[i] > 1e-6 * pf[i] for i in (0, 1))
     # no target() on the contraction ratio: it drags the search into 10^4-iteration cases (measured: 12 min for 12 000
     # cases); the generator's near-equilibrium class reaches that region instead.
